@@ -546,6 +546,10 @@ const amongCap = 150
 // convCases builds the protocol cases and runs the oracles for one host value.
 // x is what is handed to conv (x == nil: the untyped nil); rv the same value for reflect walks.
 func convCases(x interface{}, tags []string, envOps bool) []Case {
+	if guardBegin("conv " + humanGo(reflect.ValueOf(x))) {
+		return []Case{crashCase("conv " + humanGo(reflect.ValueOf(x)))}
+	}
+	defer guardEnd()
 	rv := reflect.ValueOf(x)
 	human := humanGo(rv)
 	g := encGoVal(rv)
